@@ -279,6 +279,24 @@ pub fn q4_jobs(need: Need, special: bool) -> Vec<Job> {
   jobs
 }
 
+/// S4/S5: four or five mappings ending in the SAME key A (triggers drawn with repetition from [A], [CAPSLOCK,A],
+/// [LEFTSHIFT,A], [B,A]), each with its own output key: precedence among many candidates, re-defined triggers.
+pub fn same_final_jobs(need: Need, k: usize) -> Vec<Job> {
+  use crate::keys::{Mapping, Repeat};
+  use KeyCode::*;
+  let trigs: [Vec<KeyCode>; 4] = [vec![A], vec![CAPSLOCK, A], vec![LEFTSHIFT, A], vec![B, A]];
+  let dk = [X, Y, Z, W, V];
+  let mut jobs = vec![];
+  for idx in 0..4usize.pow(k as u32) {
+    let mut j = idx; let mut ms = vec![];
+    for q in 0..k { ms.push(Mapping { from: trigs[j % 4].clone(), to: if q % 2 == 0 { vec![dk[q]] } else { vec![LEFTCTRL, dk[q]] }, repeat: Repeat::Normal, absorbing: vec![] }); j /= 4; }
+    let layout = Layout { mappings: ms };
+    if !layout_ok(&layout, need) { continue; }
+    jobs.push(Job::Fixed { name: format!("S{}-{}", k, idx), layout, alphabet: vec![A, B, CAPSLOCK, LEFTSHIFT], n: 4, alpha_rule: "A, B, CAPSLOCK, LEFTSHIFT" });
+  }
+  jobs
+}
+
 pub fn run(ctx: &Ctx) -> Outcome {
   let id = ctx.id.as_str();
   let bit = prop_bit(id);
@@ -297,6 +315,12 @@ pub fn run(ctx: &Ctx) -> Outcome {
     let qj = q4_jobs(plan.need, id == "C09");
     gen_rules.push(json!({"family": "Q4", "what": "four single-key mappings on A,B,J,K: every combination of 5 output forms ([D],[LEFTSHIFT,D],[LEFTCTRL,D],[],[LEFTSHIFT]) and of two repeat modes per mapping", "layouts": qj.len(), "bound_keys_held": 4, "alphabet": ["A", "B", "J", "K"]}));
     jobs.extend(qj);
+  }
+  if plan.need == Need::Any || plan.need == Need::NonAbsorbing {
+    let mut sj = same_final_jobs(plan.need, 4);
+    if ctx.tier == Tier::Thorough || matches!(id, "C03" | "C04") { sj.extend(same_final_jobs(plan.need, 5)); }
+    gen_rules.push(json!({"family": "S4/S5", "what": "four (and five) mappings ending in the same key A, triggers drawn with repetition from [A],[CAPSLOCK,A],[LEFTSHIFT,A],[B,A], distinct outputs", "layouts": sj.len(), "bound_keys_held": 4, "alphabet": ["A", "B", "CAPSLOCK", "LEFTSHIFT"]}));
+    jobs.extend(sj);
   }
   // big fixed layouts first so that they do not become the tail
   jobs.sort_by_key(|j| match j { Job::Fixed { alphabet, n, .. } => 0usize.wrapping_sub(alphabet.len().pow(*n as u32)), _ => usize::MAX / 2 });
